@@ -156,6 +156,11 @@ fn load_inner(sess: &Session, with_debugger: bool) -> Result<Loaded, Value> {
                     }
                     ev["texts"] = json!(tv);
                     ev["src"] = json!(src);
+                    // what the debugger really starts with (absolute addresses), next to the tree the spec derives them from
+                    if let Some(b) = env.verif_breakpoints() {
+                        ev["bps0"] = json!(b.iter().map(|x| x.0).collect::<Vec<u16>>());
+                        ev["ast"] = crate::prog::ast_json(ast);
+                    }
                     env
                 }
                 Some(Err(msg)) => return Err(json!({"ev": "loadfail", "id": sess.id, "kind": "asm-error", "code": 0, "msg": msg, "raw": false, "o": 0, "n": 0})),
